@@ -402,30 +402,78 @@ class Model:
                         domains[other.name].discard(val)
         return True
 
+    def _linearize(self, expr) -> tuple[dict[str, int], int]:
+        """Linear form of an expression: ({var name: coefficient}, constant). Raises on anything else."""
+        coefs: dict[str, int] = {}
+
+        def walk(e, k):
+            if isinstance(e, Expr):
+                e = e.data
+            if isinstance(e, IntVar):
+                coefs[e.name] = coefs.get(e.name, 0) + k
+                return 0
+            if isinstance(e, int):
+                return k * e
+            if isinstance(e, tuple) and len(e) == 3:
+                op, a, b = e
+                if op == "add":
+                    return walk(a, k) + walk(b, k)
+                if op == "sub":
+                    return walk(a, k) + walk(b, -k)
+                if op == "rsub":  # b - a
+                    return walk(b, k) + walk(a, -k)
+                if op == "mul" and isinstance(b, int):
+                    return walk(a, k * b)
+                if op == "mul" and isinstance(a, int):
+                    return walk(b, k * a)
+            raise ValueError(f"Unsupported expression in constraint: {e!r}")
+
+        const = walk(expr, 1)
+        return coefs, const
+
     def _propagate_ne_expr(self, left, right, is_ne: bool, domains: dict[str, set[int]]) -> bool:
-        """Propagate (left_expr != right_expr) or (left_expr == right_expr)."""
-        left_terms, left_const = self._flatten_sum(left)
-        right_terms, right_const = self._flatten_sum(right)
+        """Propagate (left_expr != right_expr) or (left_expr == right_expr) for linear expressions."""
+        coefs, const = self._linearize(left)
+        right_coefs, right_const = self._linearize(right)
+        for name, c in right_coefs.items():
+            coefs[name] = coefs.get(name, 0) - c
+        const -= right_const
 
-        if len(left_terms) == 1 and len(right_terms) == 1:
-            var1, var2 = left_terms[0], right_terms[0]
-            offset = right_const - left_const
-
-            if is_ne:
-                # var1 != var2 + offset
-                if len(domains[var1.name]) == 1:
-                    v1 = next(iter(domains[var1.name]))
-                    domains[var2.name].discard(v1 - offset)
-                if len(domains[var2.name]) == 1:
-                    v2 = next(iter(domains[var2.name]))
-                    domains[var1.name].discard(v2 + offset)
+        # sum(coefs[n] * n) + const  ==/!=  0, with assigned variables folded into the constant
+        free = []
+        for name, c in coefs.items():
+            if c == 0:
+                continue
+            if len(domains[name]) == 1:
+                const += c * next(iter(domains[name]))
             else:
-                # var1 == var2 + offset
-                valid1 = {v for v in domains[var1.name] if (v - offset) in domains[var2.name]}
-                valid2 = {v for v in domains[var2.name] if (v + offset) in domains[var1.name]}
-                if not valid1 or not valid2:
+                free.append(name)
+
+        if not free:
+            return (const != 0) if is_ne else (const == 0)
+
+        if len(free) == 1:
+            name = free[0]
+            c = coefs[name]
+            if -const % c == 0:
+                val = -const // c
+                if is_ne:
+                    domains[name].discard(val)
+                elif val in domains[name]:
+                    domains[name] = {val}
+                else:
                     return False
-                domains[var1.name] = valid1
-                domains[var2.name] = valid2
+            elif not is_ne:
+                return False
+
+        elif len(free) == 2 and not is_ne:
+            n1, n2 = free
+            c1, c2 = coefs[n1], coefs[n2]
+            valid1 = {v for v in domains[n1] if any(c1 * v + c2 * w + const == 0 for w in domains[n2])}
+            valid2 = {w for w in domains[n2] if any(c1 * v + c2 * w + const == 0 for v in valid1)}
+            if not valid1 or not valid2:
+                return False
+            domains[n1] = valid1
+            domains[n2] = valid2
 
         return True
